@@ -183,6 +183,9 @@ def gen_module(rng, params):
                     rel = rng.choice([0, 0, size - 1, rng.randrange(size)])
                     ann[f"{table}/{keying}@{rel}"] = (f"c-{it['id']}-{rel}" if table == "comments" else rng.randint(1, 9))
                 it["ann"] = ann
+    # CFI procedures (x86-64 ELF): contiguous runs of code blocks
+    if isa == "x64" and fmt == "elf" and rng.random() < params.get("cfi_p", 0.0):
+        _gen_cfi(rng, isa, blocks, desc, data_labels, ids)
     # alignment
     if rng.random() < params.get("align_p", 0.3):
         for b in blocks + dblocks:
@@ -233,6 +236,72 @@ def gen_module(rng, params):
     if rng.random() < 0.5:
         desc["entry_point"] = rng.choice(code_blocks)["id"]
     return desc
+
+
+def _gen_cfi(rng, isa, blocks, desc, data_labels, ids):
+    """0-3 CFI procedures with directives at block starts, instruction
+    boundaries and block ends, personality / LSDA symbols.  Built so that
+    they evaluate cleanly (register+offset CFA throughout)."""
+    code_idx = [i for i, b in enumerate(blocks) if b["kind"] == "code"]
+    if not code_idx:
+        return
+    i = 0
+    nproc = 0
+    while i < len(blocks) and nproc < 3:
+        if blocks[i]["kind"] != "code" or rng.random() < 0.3:
+            i += 1
+            continue
+        # extend over consecutive code blocks
+        j = i
+        while j + 1 < len(blocks) and blocks[j + 1]["kind"] == "code" and rng.random() < 0.6:
+            j += 1
+        nproc += 1
+
+        def add(b, off, d):
+            b.setdefault("cfi", {}).setdefault(str(off), []).append(d)
+
+        first = blocks[i]
+        add(first, 0, [".cfi_startproc", [], None])
+        if rng.random() < 0.3 and desc["externs"]:
+            add(first, 0, [".cfi_personality", [0x9B], rng.choice(desc["externs"])])
+        if rng.random() < 0.3 and data_labels:
+            add(first, 0, [".cfi_lsda", [0x1B], rng.choice(data_labels)])
+        add(first, 0, [".cfi_def_cfa", [7, 8], None])
+        add(first, 0, [".cfi_offset", [16, -8], None])
+        cfa_off = 8
+        depth = 0
+        for k in range(i, j + 1):
+            b = blocks[k]
+            off = 0
+            for n, it in enumerate(b["items"]):
+                size = _item_size(isa, "code", it)
+                boundary = off + size  # after this instruction
+                if rng.random() < 0.25 and not (k == j and n == len(b["items"]) - 1 and rng.random() < 0.5):
+                    r = rng.random()
+                    if r < 0.4:
+                        d = rng.choice([8, -8, 16])
+                        if cfa_off + d >= 8:
+                            cfa_off += d
+                            add(b, boundary, [".cfi_adjust_cfa_offset", [d], None])
+                    elif r < 0.6:
+                        add(b, boundary, [".cfi_offset", [rng.choice([3, 6, 12, 13]), -rng.choice([16, 24, 32])], None])
+                    elif r < 0.75:
+                        add(b, boundary, [".cfi_remember_state", [], None])
+                        depth += 1
+                    elif r < 0.9 and depth > 0:
+                        add(b, boundary, [".cfi_restore_state", [], None])
+                        depth -= 1
+                    else:
+                        cfa_off = rng.choice([8, 16, 24])
+                        add(b, boundary, [".cfi_def_cfa_offset", [cfa_off], None])
+                off = boundary
+        last = blocks[j]
+        lsize = sum(_item_size(isa, "code", it) for it in last["items"])
+        if j + 1 < len(blocks) and blocks[j + 1]["kind"] == "code" and rng.random() < 0.4:
+            blocks[j + 1].setdefault("cfi", {}).setdefault("0", []).insert(0, [".cfi_endproc", [], None])
+        else:
+            add(last, lsize, [".cfi_endproc", [], None])
+        i = j + 1
 
 
 def _item_size(isa, kind, it):
@@ -350,6 +419,23 @@ def gen_patch(rng, model, params, world_labels, ids, allow_cf=True, in_data=Fals
     if own and rng.random() < 0.3 and allow_cf and not in_data:
         nm, temp = rng.choice(own)
         lines.append({"v": "jcc", "t": nm, "ttemp": temp})
+    if (
+        params.get("patch_cfi_p", 0.0)
+        and not in_data
+        and isa == "x64"
+        and rng.random() < params["patch_cfi_p"]
+        and not any(l.get("v") in ("jmp", "jcc", "call", "ret", "ijmp", "icall") for l in lines)
+    ):
+        # balanced CFI of the patch's own
+        d = rng.choice([8, 16])
+        insn_idx = [i for i, l in enumerate(lines) if "label" not in l][1:]
+        if insn_idx:
+            # (a directive describes the effect of the instruction in front
+            # of it, so the first one follows the patch's first instruction)
+            k = rng.choice(insn_idx)
+            lines.insert(k, {"raw": f".cfi_adjust_cfa_offset {d}"})
+            # ... at least the instruction at k+1 is enclosed
+            lines.insert(rng.randrange(k + 2, len(lines) + 1), {"raw": f".cfi_adjust_cfa_offset -{d}"})
     if rng.random() < 0.15 and not in_data:
         # trailing label: forces a new block after the patch
         nm = f"{tpre}{len(own)}"
@@ -407,6 +493,8 @@ def patch_shape_tokens(pdesc, isa):
     for ln in pdesc["lines"]:
         if "label" in ln:
             toks.append(Tok("label", "x", name="(patch)" + ln["label"]))
+        elif "raw" in ln and ln["raw"].startswith(".cfi"):
+            continue
         elif "raw" in ln:
             toks.append(Tok("data", "x", b=b"\0"))
         elif "marker" in ln:
@@ -414,6 +502,35 @@ def patch_shape_tokens(pdesc, isa):
         else:
             toks.append(Tok("insn", "x", b=b"\0", ikind=v.kind(ln), target=ln.get("t") if not ln.get("ttemp") else None))
     return toks
+
+
+def module_desc_ok(desc):
+    """CFI of the module descriptor is well formed: displacements inside
+    their block, .cfi_startproc/.cfi_endproc alternate, CFA defined."""
+    isa = desc["isa"]
+    for sec in desc["sections"]:
+        open_ = False
+        for u in sec["units"]:
+            for b in u["blocks"]:
+                size = _block_size(isa, b)
+                cfi = b.get("cfi") or {}
+                for k in sorted(cfi, key=int):
+                    if not (0 <= int(k) <= size):
+                        return False
+                    for d in cfi[k]:
+                        if d[0] == ".cfi_startproc":
+                            if open_:
+                                return False
+                            open_ = True
+                        elif d[0] == ".cfi_endproc":
+                            if not open_:
+                                return False
+                            open_ = False
+                        elif not open_:
+                            return False
+        if open_:
+            return False
+    return True
 
 
 def module_shape_ok(model):
@@ -443,6 +560,24 @@ def ops_allowed(model, sd):
                 return False
             sp = model.spans[key]
             if sp.func and sum(1 for s2 in model.span_list[sp.sect] if s2.func == sp.func and s2.size) > 1:
+                return False
+    for op in sd["ops"]:
+        lines = (op.get("patch") or {}).get("lines") or []
+        adj = [int(l["raw"].split()[-1]) for l in lines if "raw" in l and "cfi_adjust_cfa_offset" in l["raw"]]
+        if adj and (op["k"] == "insfn" or sum(adj) != 0 or len(adj) != 2 or adj[0] < 0):
+            return False
+        if adj and any(o["k"] in ("del", "delblock", "rep", "delfn") for o in sd["ops"]):
+            return False
+        if adj and any(l.get("v") in ("jmp", "jcc", "call", "ret", "ijmp", "icall") for l in lines):
+            return False
+        if adj:
+            first = next(i for i, l in enumerate(lines) if "raw" in l and "cfi_adjust_cfa_offset" in l["raw"])
+            if not any("label" not in l and "raw" not in l for l in lines[:first]):
+                return False
+        if adj:
+            # the adjusting directives must enclose at least one instruction
+            idx = [i for i, l in enumerate(lines) if "raw" in l and "cfi_adjust_cfa_offset" in l["raw"]]
+            if not any("label" not in l and "raw" not in l for l in lines[idx[0] + 1 : idx[1]]):
                 return False
     if any(op["k"] == "reg" for op in sd["ops"]):
         if any(t.origin == "pad" for _, u in model.units() for t in u.toks):
@@ -622,7 +757,7 @@ def _gen_session(rng, model, params, index):
         for k in range(rng.choice([1, 1, 2])):
             nm = f"nf{index}_{k}"
             body = gen_patch(rng, model, params, wl, ids, allow_cf=False)
-            body["lines"] = [l for l in body["lines"] if "label" not in l] or [{"v": "nop"}]
+            body["lines"] = [l for l in body["lines"] if "label" not in l and "raw" not in l] or [{"v": "nop"}]
             if wl["entries"] and rng.random() < 0.4:
                 body["lines"].append({"v": "call", "t": rng.choice(wl["entries"])})
             body["lines"].append({"v": "ret"})
@@ -705,6 +840,13 @@ def _gen_session(rng, model, params, index):
             else:
                 i += 1
     _avoid_ambiguous(model, ops)
+    if any(o["k"] in ("del", "delblock", "rep", "delfn") for o in ops):
+        # deleting code may drop the directives that define the CFA; a
+        # patch's own (relative) CFI is only meaningful when nothing is deleted
+        for o in ops:
+            p = o.get("patch")
+            if p and "lines" in p:
+                p["lines"] = [l for l in p["lines"] if not ("raw" in l and l["raw"].startswith(".cfi"))] or [{"v": "nop"}]
     order = list(range(len(ops)))
     return {"ops": ops, "reg_order": order}
 
